@@ -50,6 +50,7 @@ type hashesArgs struct {
 	Vote  VoteOpt `json:"vote"`
 	Start int64   `json:"start_delta,omitempty"` // adversarial: offset of the start height
 	Fake  bool    `json:"fake,omitempty"`        // adversarial: hashes that are not the real chain's
+	Empty bool    `json:"empty,omitempty"`       // a vote over an empty list of hashes (legal; consumes a sequence number only)
 }
 
 type mineArgs struct {
@@ -64,6 +65,7 @@ type newDepositArgs struct {
 	Node     int    `json:"node"`
 	KeyIdx   int    `json:"key_idx"` // -1: whatever the node hands out
 	Extra    int    `json:"extra_outputs,omitempty"`
+	ScriptMut string `json:"script_mut,omitempty"` // the user pays a near miss of the handed-out script
 }
 
 type proveArgs struct {
@@ -222,7 +224,10 @@ func (w *World) stepHashes(a hashesArgs, r *Rand, honest bool) string {
 	if a.Count <= 0 {
 		a.Count = 1
 	}
-	for w.Btc.Tip() < start+uint64(a.Count)-1 {
+	if a.Empty {
+		a.Count = 0
+	}
+	for a.Count > 0 && w.Btc.Tip() < start+uint64(a.Count)-1 {
 		w.Btc.noteMined(w.Btc.mine(w.Btc.pendingCoinbase()))
 	}
 	msg := &bitcointypes.MsgNewBlockHashes{Proposer: cv.Proposer.Addr(), StartBlockNumber: uint64(int64(start) + a.Start)}
@@ -305,6 +310,24 @@ func (w *World) stepNewDeposit(a newDepositArgs, r *Rand) string {
 	}
 	if resp.NetworkName != w.Cfg.Network {
 		w.violate("C17", "handed-out-wrong-network", "network", "node %d handed out an address for network %q, configured %q", n.ID, resp.NetworkName, w.Cfg.Network)
+	}
+	if a.ScriptMut != "" && len(script) > 2 {
+		script = append([]byte{}, script...)
+		switch a.ScriptMut {
+		case "witver":
+			// same witness program under another witness version (OP_0, OP_1 .. OP_16)
+			vers := []byte{0x00, 0x51, 0x52, 0x53, 0x58, 0x60}
+			nv := vers[r.Intn(len(vers))]
+			if nv == script[0] {
+				nv = 0x52
+			}
+			script[0] = nv
+		case "flip-program":
+			script[2+r.Intn(len(script)-2)] ^= 1 << uint(r.Intn(8))
+		case "push-len":
+			script[1] ^= 1
+		}
+		w.Stats.Steps["btc.deposit.scriptmut/"+a.ScriptMut]++
 	}
 	outs := []*wire.TxOut{{Value: int64(a.Value), PkScript: script}}
 	if version == 1 {
@@ -863,7 +886,7 @@ func (w *World) genRelayerStep(kind string, r *Rand, sub uint64) (Step, bool) {
 	case "btc.mine":
 		return mkStep("btc.mine", mineArgs{N: 1 + r.Intn(3) + r.Intn(2)*r.Intn(30)}, sub), true
 	case "rel.hashes":
-		return mkStep("rel.hashes", hashesArgs{Count: 1 + r.Intn(16)}, sub), true
+		return mkStep("rel.hashes", hashesArgs{Count: 1 + r.Intn(16), Empty: r.Chance(0.06)}, sub), true
 	case "rel.pubkey":
 		return mkStep("rel.pubkey", pubkeyArgs{KeyIdx: len(w.BtcKeys) - r.Intn(2), Schnorr: r.Chance(0.4)}, sub), true
 	case "rel.consolidation":
@@ -1018,7 +1041,11 @@ func (w *World) genDepositStep(r *Rand, sub uint64, bad bool) Step {
 	if !w.Cfg.FaultFree && r.Chance(0.1) {
 		ver = r.Intn(2)
 	}
-	return mkStep("btc.deposit", newDepositArgs{User: r.Intn(len(w.Users)), Value: val, Version: ver, Coinbase: r.Chance(0.12), Node: r.Intn(w.Cfg.Nodes), KeyIdx: -1, Extra: r.Intn(3)}, sub)
+	mut := ""
+	if !w.Cfg.FaultFree && (bad || r.Chance(0.1)) {
+		mut = pick(r, []string{"witver", "witver", "flip-program", "push-len"})
+	}
+	return mkStep("btc.deposit", newDepositArgs{User: r.Intn(len(w.Users)), Value: val, Version: ver, Coinbase: r.Chance(0.12), Node: r.Intn(w.Cfg.Nodes), KeyIdx: -1, Extra: r.Intn(3), ScriptMut: mut}, sub)
 }
 
 func (w *World) genParamOps(r *Rand) []*ELOp {
